@@ -23,6 +23,9 @@ RULE = (
 )
 ASSUMPTIONS = [
     "every permutation of an address-hashed set is a feasible iteration order (object addresses vary from run to run)",
+    "sets of objects that are local variables of the library cannot be re-ordered by the harness: the determinism cells "
+    "build every model 6 times with the allocator shifted in between, which finds address-dependent behaviour with a "
+    "probability per case below 1 (measured on seeded defect C02_3: 1-2 violating shards per run at every seed tried)",
     "fuel limit = 20 000 + 40 000 library calls per block (measured: a successful write costs about 1 050 calls per block, 8 415 for 8 graded blocks; margin >= 40x)",
     "order-independence cell uses chops that state their count (count, count+ratio, count+size, multi-section), so the "
     "family count does not depend on floating-point rounding of averaged edge lengths",
@@ -289,6 +292,11 @@ def check_order(case, ctx: Ctx) -> None:
     if len(classes) != 1:
         raise Violation("outcome-depends-on-order", f"variants end differently: {sorted(classes)}", **facts)
     if base_outcome != "ok":
+        if case.get("same_outcome_suffices"):
+            # several sources with different gradings: refusing is legitimate, but then in every order
+            ctx.label("rejected-in-every-order:" + type(base_payload).__name__)
+            ctx.nt(True)
+            return
         if isinstance(base_payload, (ValueError, ArithmeticError)) and _has_size_chop(case):
             ctx.label("chop-rejected")
             return
@@ -373,11 +381,77 @@ def any_case(draw, mixed: bool):
     return case
 
 
+@st.composite
+def two_sources_case(draw):
+    """A row of 4-6 blocks whose two END blocks are chopped across the row with the same count but different
+    expansions: the un-chopped blocks in between have edges that can be graded from either end, so the written file
+    depends on the order in which they are visited - which must be a function of the script."""
+    k = draw(st.integers(4, 6))
+    dims = [k, 1, 1]
+    perm = draw(st.permutations([0, 1, 2]))
+    dims = [dims[perm[a]] for a in range(3)]
+    row_axis = dims.index(k)
+    cells = draw(st.permutations(list(range(k))))
+    case = {
+        "dims": dims, "widths": [[1.0] * dims[a] for a in range(3)], "jitter": [], "cells": list(cells),
+        "orient": [draw(st.integers(0, 23)) for _ in cells], "chops": [],
+    }
+    fams, _ = lt.lattice_families(case)
+    n = draw(st.integers(2, 8))
+    shared_dir = draw(st.sampled_from([a for a in range(3) if a != row_axis]))
+    chops = []
+    for fam in fams:
+        if (0, shared_dir) in fam:
+            chops.append({"cell": 0, "gdir": shared_dir, "args": {"count": n, "c2c_expansion": 1.0}})
+            chops.append({"cell": k - 1, "gdir": shared_dir, "args": {"count": n, "c2c_expansion": draw(st.sampled_from([1.1, 1.2, 0.9]))}})
+        else:
+            c, d = draw(st.sampled_from(fam))
+            chops.append({"cell": c, "gdir": d, "args": {"count": draw(st.integers(1, 6))}})
+    case["chops"] = chops
+    case["mode"] = "two-sources"
+    case["schedules"] = [draw(_picks) for _ in range(3)]
+    return case
+
+
+@st.composite
+def order_two_sources_case(draw):
+    """two_sources model (possibly with an un-chopped block between sources that share count but not grading) under
+    4 (insertion order, numbering, schedule) variants"""
+    case = draw(two_sources_case())
+    if draw(st.booleans()):
+        # three blocks in a row are enough for 'un-chopped block between two sources'
+        k = max(case["dims"])
+        axis = case["dims"].index(k)
+        keep = [0, 1, k - 1] if k > 3 else list(range(k))
+        case["cells"] = [c for c in case["cells"] if c in keep]
+        case["orient"] = case["orient"][: len(case["cells"])]
+        case["chops"] = [ch for ch in case["chops"] if ch["cell"] in keep]
+        fams, _ = lt.lattice_families(case)
+        chopped = {(ch["cell"], ch["gdir"]) for ch in case["chops"]}
+        for fam in fams:
+            if not any(m in chopped for m in fam):
+                case["chops"].append({"cell": fam[0][0], "gdir": fam[0][1], "args": {"count": 2}})
+    n = len(case["cells"])
+    case["variants"] = [
+        {"perm": draw(st.permutations(list(range(n)))), "orient": [draw(st.integers(0, 23)) for _ in range(n)], "picks": draw(_picks)}
+        for _ in range(3)
+    ]
+    case["picks"] = draw(_picks)
+    case["same_outcome_suffices"] = True
+    return case
+
+
 def check_determinism(case, ctx: Ctx) -> None:
     facts = facts_of(case)
     outs = []
     multi = 0
-    for picks in case["schedules"]:
+    keep = []
+    for i, picks in enumerate(case["schedules"] * 2):
+        # shift the allocator between builds: iteration over any set of objects the library may build internally
+        # (which the harness cannot re-order) depends on object addresses
+        keep.append([object() for _ in range(37 * (i + 1) + 11 * (sum(picks) % 97))])
+        if i % 2:
+            keep.pop(0)
         built = lt.build(case)
         o, p, multi = run_write(case, built, picks)
         if o == "fuel":
@@ -424,11 +498,17 @@ CELLS = [
          "well-posed graded chops (sizes, ratios, preserve) + drawn schedule"),
     Cell("C02/order-independence", order_case(), check_order, 100, 4000,
          "same lattice model under 4 (insertion order, numbering, schedule) triples: same outcome, same counts per (cell, direction)"),
+    Cell("C02/order-independence/two-sources", order_two_sources_case(), check_order, 80, 3000,
+         "a family chopped at both ends of a row with the same count and different expansions, under 4 (insertion "
+         "order, numbering, schedule) triples: same outcome class, same counts per (cell, direction)"),
     Cell("C02/under-specified", under_case(), check_under, 150, 6000,
          "one family without chop: UndefinedGradingsError within fuel; no file left / existing file untouched"),
     Cell("C02/determinism/uniform", any_case(False), check_determinism, 120, 5000,
          "arbitrary chop placement (possibly redundant / under-specified), one specification per family, 3 schedules: "
          "same outcome class and byte-identical file"),
+    Cell("C02/determinism/two-sources", two_sources_case(), check_determinism, 100, 4000,
+         "row of 4-6 blocks, both ends chopped with the same count and different expansions, drawn insertion order and "
+         "numbering; 6 builds with shifted allocator and 3 schedules: same outcome class and byte-identical file"),
     Cell("C02/determinism/mixed", any_case(True), check_determinism, 120, 5000,
          "as uniform but members of a family may carry different counts / expansions, 3 schedules"),
 ]
